@@ -497,8 +497,10 @@ def run(chk):
         rb = list(range(len(t))) if kind == 2 else gen_rb(rng, len(t), stats)
         nds = gen_needles(rng, t, rb, 2, 40)
         add_doc("CDRXN" if len(t) <= 400 else "CDRN", t, rb, nds, False, "medium%d" % k)
-    if not quick or chk.seed % 3 == 0:
-        K = 65537 + rng.below(3) - 1
+    # the u32 branch of PsiDocument::construct (more than 65535 distinct symbols) is reached by no smaller text:
+    # one such document in EVERY run (seeded/C19-r3-3 swapped isa and psi in that branch only and escaped the
+    # quick tier, which built this document for one seed in three), the threshold from below in the thorough tier
+    for K in ([65536 + rng.below(3)] if quick else [65535, 65536, 65537 + rng.below(3)]):
         t = list(range(K)) + [rng.below(K) for _ in range(2000)]
         add_doc("CRN", t, [0, 5, K], [[1, 2], [K - 1], [K - 2, K - 1], [70000]], False, "u16-threshold")
 
